@@ -151,7 +151,8 @@ TABLE = {
             "error or equal final states once the variable is deleted (substitution lemma over all expression forms, "
             "lifted through arguments, keyword/list arguments, modes, include expansion, statements, bodies, value "
             "lists); ranges a:b:c denote a, a+c, ... below b, empty when a >= b, default step 1; the variable is not "
-            "visible afterwards; a wrongly typed listed value makes the loop fail at that value. Oracle: loads(loop "
+            "visible afterwards; a wrongly typed listed value makes the loop fail at that value, and a range - a list of integers - "
+            "is refused by a str loop at its first value and by a bool loop at any value other than 0 and 1. Oracle: loads(loop "
             "script) vs loads(unrolled script).",
             "Lean 4 proof (substitution lemma, induction over values and statements) + correspondence", "DESIGN.md 7 (C06)",
             "The deferral of body statements during the tree walk (_in_for) is represented by its effect "
